@@ -206,17 +206,32 @@ LexDevsUsed(text, dev) == {d \in dev \cap LexDevs : Lex(text, {d}) # Lex(text, {
 
 --------------------------------------------------------------------------------
 (* State machine (modes M and G): one Scan per code point.                     *)
-CONSTANTS Sigma, MaxLen, First      \* First: classes allowed as the first code point
-VARIABLES text, ls
-lvars == <<text, ls>>
+CONSTANT LRuns                      \* the lexer runs of this TLC run: a set of <<id, Sigma, MaxLen, First>>
+VARIABLES text, ls, lrun            \* First: classes allowed as the first code point; lrun: id of the run this behaviour belongs to
+lvars == <<text, ls, lrun>>
+LRun == CHOOSE r \in LRuns : r[1] = lrun
 
-LInit == text = <<>> /\ ls = LexInit
-LNext == \E c \in Sigma :
-           /\ Len(text) < MaxLen
-           /\ (text = <<>> => c \in First)
+LInit == text = <<>> /\ ls = LexInit /\ lrun \in {r[1] : r \in LRuns}
+LNext == \E c \in LRun[2] :
+           /\ Len(text) < LRun[3]
+           /\ (text = <<>> => c \in LRun[4])
            /\ text' = Append(text, c)
            /\ ls' = Scan(ls, c, {})
+           /\ UNCHANGED lrun
 LSpec == LInit /\ [][LNext]_lvars
+\* the variables at rest, for modules that extend this one but do not run the lexer automaton
+LIdle == text = <<>> /\ ls = LexInit /\ lrun = "none"
+
+StrSigma == {"Q", "BS", "a", "n", "u", "D", "8", "LF"}
+NumSigma == {"0", "1", "MINUS", "DOT", "e", "PLUS", "a", "SP"}
+\* quoted strings (first code point is the quote); number / name runs; block-string bodies (the driver wraps them in `"""`)
+LRunsM        == {<<"m", {"Q", "BS", "a", "n", "u", "D", "8", "LF", "SP"}, 5, {"Q", "BS", "a", "n", "u", "D", "8", "LF", "SP"}>>}
+LRunsQuick    == {<<"strings", StrSigma, 5, {"Q"}>>, <<"numbers", NumSigma \ {"PLUS"}, 4, NumSigma \ {"PLUS"}>>,
+                  <<"blockA", {"a", "LF", "SP"}, 7, {"a", "LF", "SP"}>>,
+                  <<"blockB", {"a", "LF", "SP", "Q", "BS", "CR"}, 4, {"a", "LF", "SP", "Q", "BS", "CR"}>>}
+LRunsThorough == {<<"strings", StrSigma, 6, {"Q"}>>, <<"numbers", NumSigma \ {"SP"}, 5, NumSigma \ {"SP"}>>,
+                  <<"blockA", {"a", "LF", "SP", "TAB"}, 7, {"a", "LF", "SP", "TAB"}>>,
+                  <<"blockB", {"a", "LF", "SP", "Q", "BS", "CR"}, 5, {"a", "LF", "SP", "Q", "BS", "CR"}>>}
 
 \* -- invariants ------------------------------------------------------------------------------------
 TokLen(t) == IF t.k = "s" THEN Len(t.raw) + 2 ELSE IF t.k = "b" THEN Len(t.raw) + 6 ELSE Len(t.s)
@@ -241,8 +256,11 @@ TokensWellFormed ==
       /\ t.k \in {"n", "i", "f"} => Len(t.s) >= 1
 \* the batch definition used in mode V (LexFrom) agrees with the step-by-step automaton
 LFoldAgrees == LexFrom(LexInit, text, 1, {}) = Finish(ls)
-LTypeOK == ls.n \in 0..MaxLen /\ ls.u \in 0..3 /\ Len(ls.toks) <= MaxLen
+LTypeOK == ls.n \in 0..LRun[3] /\ ls.u \in 0..3 /\ Len(ls.toks) <= LRun[3]
 
 \* mode G
-LEmit == PrintT(<<"REPLAY", text>>)
+\* (one string per text: TLC wraps long tuples over several lines)
+RECURSIVE JoinStr(_, _, _)
+JoinStr(seq, i, acc) == IF i > Len(seq) THEN acc ELSE JoinStr(seq, i + 1, IF i = 1 THEN seq[i] ELSE acc \o " " \o seq[i])
+LEmit == PrintT(<<"REPLAY", lrun, JoinStr(text, 1, "")>>)
 =============================================================================
